@@ -1,4 +1,5 @@
 PROP = dict(
+    ready=True,
     coq=["theories/Properties/C15.v"],
     suites=[dict(bin="obs-lock", timeout=2400)],
     trusted=[
